@@ -164,7 +164,13 @@ impl HttpClient {
         let host = http_settings
             .hostname
             .map(S::into)
-            .unwrap_or_else(|| address.ip().to_string());
+            .unwrap_or_else(|| {
+                match address.ip() {
+                    // An IPv6 address needs brackets to be used as the host part of an URL
+                    std::net::IpAddr::V6(ip) => format!("[{ip}]"),
+                    ip => ip.to_string(),
+                }
+            });
 
         Ok(Self {
             client,
